@@ -43,6 +43,7 @@ type singleExit struct {
 	acc    types.Object
 	accID  *ast.Ident
 	isBool bool
+	isRef  bool
 	failed bool
 }
 
@@ -66,6 +67,12 @@ func (s *singleExit) constExpr(v constant.Value, t types.Type, pos token.Pos) as
 }
 
 func (s *singleExit) neutral(pos token.Pos) ast.Expr {
+	if s.isRef {
+		id := &ast.Ident{NamePos: pos, Name: "nil"}
+		s.info.Uses[id] = types.Universe.Lookup("nil")
+		s.info.Types[id] = types.TypeAndValue{Type: types.Typ[types.UntypedNil]}
+		return id
+	}
 	if s.isBool {
 		return s.constExpr(constant.MakeBool(true), s.acc.Type(), pos)
 	}
@@ -75,6 +82,9 @@ func (s *singleExit) neutral(pos token.Pos) ast.Expr {
 // guardOf: is e the guard "the accumulator still has its neutral value" (c == 0 / 0 == c / eq)?
 func (s *singleExit) isGuard(e ast.Expr) bool {
 	e = ast.Unparen(e)
+	if s.isRef {
+		return false
+	}
 	if s.isBool {
 		return s.isAcc(e)
 	}
@@ -121,14 +131,19 @@ func (s *singleExit) rewrite() []ast.Stmt {
 	if !ok || v.IsField() || v.Pkg() == nil || v.Parent() == v.Pkg().Scope() {
 		return nil
 	}
-	b, ok := v.Type().Underlying().(*types.Basic)
-	if !ok {
-		return nil
-	}
-	switch {
-	case b.Info()&types.IsBoolean != 0:
-		s.isBool = true
-	case b.Info()&types.IsInteger != 0:
+	switch ut := v.Type().Underlying().(type) {
+	case *types.Basic:
+		switch {
+		case ut.Info()&types.IsBoolean != 0:
+			s.isBool = true
+		case ut.Info()&types.IsInteger != 0:
+		default:
+			return nil
+		}
+	case *types.Pointer, *types.Interface:
+		// a reference result (`var created Step; switch t { case A: created = NewA() … }; return created`):
+		// neutral value nil; only the tail forms (if/switch arms ending in the assignment) are rewritten
+		s.isRef = true
 	default:
 		return nil
 	}
@@ -216,7 +231,7 @@ func (s *singleExit) rewrite() []ast.Stmt {
 	rest := list[declAt+1 : len(list)-1]
 	startNeutral := false
 	if init == nil {
-		startNeutral = !s.isBool // var c int starts at 0; var eq bool starts false: not the neutral value
+		startNeutral = !s.isBool // var c int starts at 0 (a reference at nil); var eq bool starts false: not the neutral value
 	} else if tv, ok := s.info.Types[init]; ok && tv.Value != nil {
 		if s.isBool {
 			startNeutral = tv.Value.Kind() == constant.Bool && constant.BoolVal(tv.Value)
@@ -295,6 +310,52 @@ func (s *singleExit) seq(list []ast.Stmt, final *ast.ReturnStmt) []ast.Stmt {
 			}
 			s.failed = true
 			return nil
+		case *ast.SwitchStmt:
+			// switch … { case A: acc = X … } as the last statement: each arm is a sequence of its own,
+			// an arm that does not exist (no default) falls through to `return neutral`
+			if !isLast || (v.Init != nil && s.mentionsAcc(v.Init)) || (v.Tag != nil && s.mentionsAcc(v.Tag)) {
+				s.failed = true
+				return nil
+			}
+			ns := &ast.SwitchStmt{Switch: v.Switch, Init: v.Init, Tag: v.Tag, Body: &ast.BlockStmt{Lbrace: v.Body.Lbrace, Rbrace: v.Body.Rbrace}}
+			hasDefault := false
+			for _, c := range v.Body.List {
+				cc, ok := c.(*ast.CaseClause)
+				if !ok {
+					s.failed = true
+					return nil
+				}
+				for _, e := range cc.List {
+					if s.mentionsAcc(e) {
+						s.failed = true
+						return nil
+					}
+				}
+				bad := false
+				ast.Inspect(&ast.BlockStmt{List: cc.Body}, func(n ast.Node) bool {
+					if br, ok := n.(*ast.BranchStmt); ok && (br.Tok == token.FALLTHROUGH || br.Tok == token.BREAK || br.Tok == token.GOTO) {
+						bad = true
+					}
+					return !bad
+				})
+				if bad {
+					s.failed = true
+					return nil
+				}
+				if cc.List == nil {
+					hasDefault = true
+				}
+				arm := s.seq(cc.Body, final)
+				if s.failed {
+					return nil
+				}
+				ns.Body.List = append(ns.Body.List, &ast.CaseClause{Case: cc.Case, List: cc.List, Colon: cc.Colon, Body: arm})
+			}
+			out = append(out, ns)
+			if !hasDefault {
+				out = append(out, &ast.ReturnStmt{Return: final.Return, Results: []ast.Expr{s.neutral(final.Pos())}})
+			}
+			return out
 		default:
 			s.failed = true
 			return nil
@@ -351,6 +412,10 @@ func (s *singleExit) ifTail(v *ast.IfStmt, final *ast.ReturnStmt) []ast.Stmt {
 
 // leaveUnlessNeutral: acc = E followed by "return acc unless it is neutral".
 func (s *singleExit) leaveUnlessNeutral(as *ast.AssignStmt) []ast.Stmt {
+	if s.isRef {
+		s.failed = true
+		return nil
+	}
 	e := as.Rhs[0]
 	pos := as.Pos()
 	if tv, ok := s.info.Types[e]; ok && tv.Value != nil {
@@ -383,6 +448,9 @@ func (s *singleExit) leaveUnlessNeutral(as *ast.AssignStmt) []ast.Stmt {
 // guardedLoop: for init; guard && cond; post { body } with every assignment to the accumulator in the
 // body followed (on its path through the body) by nothing that mentions the accumulator.
 func (s *singleExit) guardedLoop(f *ast.ForStmt) ast.Stmt {
+	if s.isRef {
+		return nil
+	}
 	if f.Cond == nil || (f.Init != nil && s.mentionsAcc(f.Init)) || (f.Post != nil && s.mentionsAcc(f.Post)) {
 		return nil
 	}
